@@ -105,8 +105,11 @@ _c20_udp["classify"] = ("c20_class_code", {1: "tally-peer-id-change", 2: "forbid
 PROPS["C20"] = dict(
     suites=[_c20_udp,
             dict(name="export-crash", harness="export-crash", imports=["Export"], case_type="nat * bool * nat * list (bool * N)",
-                 check="export_code", monitor="export_code", count_quick=60, count_thorough=600, nontrivial_bits=3, shrink=False)],
-    rule="udp-swarm histories with statistics.peer_clients on in 2/3 of them, a statistics output enabled and exports written on every clean: "
+                 check="export_code", monitor="export_code", count_quick=60, count_thorough=600, nontrivial_bits=3, shrink=False),
+            dict(name="udp-stats-worker", harness="udp-stats", imports=["StatsSysCheck"], case_type="stats_case",
+                 check="stats_code", monitor="stats_code", count_quick=2, count_thorough=16, nontrivial_bits=3, shrink=False,
+                 crash_is_violation=True)],
+    rule="udp-stats-worker: a RUNNING udp tracker (mio or io_uring, 1..2 socket workers) with statistics and cleaning every second, HTML report, per-client tallies: three phases of announces and stops from 6 peer ids of three client kinds over two torrents (a peer id in both torrents counts once); after each phase the report's torrent and peer totals and its client table are read back and compared with the reference; udp-swarm histories with statistics.peer_clients on in 2/3 of them, a statistics output enabled and exports written on every clean: "
          "the PeerAdded/PeerRemoved stream is read from the real statistics channel, totals from the SwarmWorkerStatistics atomics, the export "
          "file is read back; export-crash: a child process runs a cleaning pass with 0..4 exported torrents and aborts itself after the k-th "
          "export step (hook H4: created / each line / flushed / closed / renamed), for k = 0..n+5, with and without a previous file; "
@@ -337,8 +340,11 @@ _WS_RULE = ("histories of 8..57 ops on the real aquatic_ws swarm storage (hook H
             "{1..40}; compared: the complete list of (destination, message) pairs of every op; non-trivial = at least one offer AND one "
             "answer were forwarded")
 PROPS["C08"] = dict(
-    suites=[ws_suite("ws-swarm-bookkeeping")],
-    rule=_WS_RULE,
+    suites=[ws_suite("ws-swarm-bookkeeping"),
+            dict(name="ws-sys-ownership", harness="ws-sys", imports=["WsSysCheck"], case_type="wsys_case",
+                 check="ws_sys_code", monitor="ws_sys_mon", count_quick=30, count_thorough=400, nontrivial_any=True, shrink=False,
+                 crash_is_violation=True)],
+    rule="ws-sys-ownership: the running-tracker histories of C17 (connection close, a peer id used by two connections, 'stopped' from a connection that has no record of the torrent, end-of-case audit scrapes): the socket worker's clean-up record and the swarm worker's ownership rule together; " + _WS_RULE,
     modelled="crates/ws/src/workers/swarm/storage.rs (all of it) in WsSwarm.v; the socket worker's announced_info_hashes bookkeeping is "
              "modelled in WsRouting.v (C17)",
     assumptions=["one swarm worker's storage; channel interleavings between workers are C17", "IndexMap semantics as modelled"],
